@@ -115,6 +115,19 @@ fn one(ctx: &Ctx, rep: &mut Report, id: usize, cfg: Cfg, k: usize) {
             variants.push((format!("promise[{j}]"), base.clone(), v));
         }
     }
+    // (c'') the same promise at another position of the vector ([Some(1), None, ..] vs [None, Some(1), ..])
+    if m >= 2 && n >= 2 {
+        let a = k % (m - 1);
+        let mut p1: Vec<Option<u64>> = vec![None; m];
+        let mut p2: Vec<Option<u64>> = vec![None; m];
+        p1[a] = Some(1);
+        p2[a + 1] = Some(1);
+        let mut i1 = mk(base_pc.clone(), values.clone(), blindings.clone(), p1, context.clone());
+        let mut i2 = mk(base_pc.clone(), values.clone(), blindings.clone(), p2, context.clone());
+        i1.seed = seed;
+        i2.seed = seed;
+        variants.push((format!("position of a promise ({a} vs {})", a + 1), i1, i2));
+    }
     // (c') the commitments (another blinding vector: public data differ)
     {
         let mut bl = blindings.clone();
